@@ -152,7 +152,68 @@ pub fn judge(case: &Case) -> Verdict {
     }
 }
 
+
+/// filter call histories: a card c, then a word w - a one-entry memo of the last accepted word, keyed by a folded
+/// digest, answers every word alone correctly. quick: w = c ^ x for x in {d, d << 16, d << 16 | d : d < 2^16} (the
+/// collisions of the usual xor / add folds); thorough: w over ALL 2^32 words after every card. Single-threaded;
+/// `shard` = Some((k, n)) restricts to the cards with deck index = k mod n (one process per shard).
+fn filter_histories(_ctx: &Ctx, rep: &mut Report, shard: Option<(usize, usize)>) {
+    {
+        let t0 = Instant::now();
+        let kind = monitor::kind_id("filter-history");
+        let thorough = _ctx.tier.thorough();
+        let cards = deck();
+        let accs = par_parts(1, |_| {
+            let mut acc = Acc::new(1);
+            for (ci, c) in cards.iter().enumerate() {
+                if let Some((k, n)) = shard {
+                    if ci % n != k {
+                        continue;
+                    }
+                }
+                let cw = c.word();
+                monitor::beat(kind, &[cw as u64]);
+                let mut step = |w: u32, acc: &mut Acc| {
+                    acc.cases += 1;
+                    acc.calls += 2;
+                    let e = if is_card_word(w) { w } else { 0 };
+                    let ok = matches!(guard(|| (CardNumber::filter(cw), CardNumber::filter(w))), Ok((a, b)) if a == cw && b == e);
+                    if !ok {
+                        let sc = super::seq_case(&Case::w32("filter", &[cw]), &Case::w32("filter", &[w]));
+                        match super::judge_seq(judge, &sc) {
+                            Verdict::Violated { class, expected, observed } => acc.violate(crate::engine::evidence::Violation { class, case: sc, expected, observed, profile: crate::engine::evidence::profile_name().into(), trace: vec![] }),
+                            _ => super::unreproduced(&format!("C10 filter history {:#x} then {:#x} not reproduced", cw, w)),
+                        }
+                    }
+                };
+                if thorough {
+                    for x in 0..=u32::MAX {
+                        if x & 0xFF_FFFF == 0 {
+                            monitor::tick();
+                        }
+                        step(x, &mut acc);
+                    }
+                } else {
+                    for d in 1..=0xFFFFu32 {
+                        step(cw ^ d, &mut acc);
+                        step(cw ^ (d << 16), &mut acc);
+                        step(cw ^ (d << 16 | d), &mut acc);
+                    }
+                }
+            }
+            acc.nontrivial = acc.cases;
+            acc
+        });
+        let acc = Acc::merged(accs);
+        rep.add_space(if thorough { "filter histories: every card, then EVERY 32-bit word (single-threaded)" } else { "filter histories: every card c, then c ^ x for x in {d, d<<16, d<<16|d : d < 2^16} (single-threaded)" }, &acc, t0, "the second answer must not depend on the first call");
+    }
+}
+
 pub fn run(_ctx: &Ctx, rep: &mut Report) {
+    if let Some(sh) = _ctx.shard {
+        filter_histories(_ctx, rep, Some(sh));
+        return;
+    }
     #[allow(unused_variables)]
     let ctx = _ctx;
     // create
@@ -265,52 +326,11 @@ pub fn run(_ctx: &Ctx, rep: &mut Report) {
         }
         super::history2(rep, judge, &items);
     }
-    // filter call histories: a card c, then a word w - a one-entry memo of the last accepted word, keyed by a folded
-    // digest, answers every word alone correctly. quick: w = c ^ x for x in {d, d << 16, d << 16 | d : d < 2^16} (the
-    // collisions of the usual xor / add folds); thorough: w over ALL 2^32 words after every card (single-threaded).
-    {
-        let t0 = Instant::now();
-        let kind = monitor::kind_id("filter-history");
-        let thorough = _ctx.tier.thorough();
-        let cards = deck();
-        let accs = par_parts(1, |_| {
-            let mut acc = Acc::new(1);
-            for c in cards.iter() {
-                let cw = c.word();
-                monitor::beat(kind, &[cw as u64]);
-                let mut step = |w: u32, acc: &mut Acc| {
-                    acc.cases += 1;
-                    acc.calls += 2;
-                    let e = if is_card_word(w) { w } else { 0 };
-                    let ok = matches!(guard(|| (CardNumber::filter(cw), CardNumber::filter(w))), Ok((a, b)) if a == cw && b == e);
-                    if !ok {
-                        let sc = super::seq_case(&Case::w32("filter", &[cw]), &Case::w32("filter", &[w]));
-                        match super::judge_seq(judge, &sc) {
-                            Verdict::Violated { class, expected, observed } => acc.violate(crate::engine::evidence::Violation { class, case: sc, expected, observed, profile: crate::engine::evidence::profile_name().into(), trace: vec![] }),
-                            _ => super::unreproduced(&format!("C10 filter history {:#x} then {:#x} not reproduced", cw, w)),
-                        }
-                    }
-                };
-                if thorough {
-                    for x in 0..=u32::MAX {
-                        if x & 0xFF_FFFF == 0 {
-                            monitor::tick();
-                        }
-                        step(x, &mut acc);
-                    }
-                } else {
-                    for d in 1..=0xFFFFu32 {
-                        step(cw ^ d, &mut acc);
-                        step(cw ^ (d << 16), &mut acc);
-                        step(cw ^ (d << 16 | d), &mut acc);
-                    }
-                }
-            }
-            acc.nontrivial = acc.cases;
-            acc
-        });
-        let acc = Acc::merged(accs);
-        rep.add_space(if thorough { "filter histories: every card, then EVERY 32-bit word (single-threaded)" } else { "filter histories: every card c, then c ^ x for x in {d, d<<16, d<<16|d : d < 2^16} (single-threaded)" }, &acc, t0, "the second answer must not depend on the first call");
+    if _ctx.tier.thorough() {
+        // every card, then EVERY 32-bit word: sharded over single-threaded processes (one memo per process)
+        super::spawn_shards(_ctx, rep, 13);
+    } else {
+        filter_histories(_ctx, rep, None);
     }
     rep.rule = "distinct enumeration pairs, constants, deck positions, (word, accessor set) and 32-bit words; non-trivial = the 52 real cards / words in each family".into();
     rep.bound = "none: every family is enumerated completely".into();
